@@ -55,6 +55,19 @@ fn main() {
                 Err(e) => format!("err {}", code_value(&format!("{:?}", e))),
             }
         }
+        ["dg.decc", chunks] => {
+            // the same datagram bytes as a non-contiguous Buf
+            let cs: Vec<Bytes> = chunks.split('.').map(|c| Bytes::from(unhex(c))).collect();
+            match Datagram::decode(ChunkBuf::new(cs)) {
+                Ok(d) => {
+                    let id = d.stream_id().into_inner();
+                    let mut p = d.into_payload();
+                    let rest = p.copy_to_bytes(p.remaining());
+                    format!("ok {} {}", id, hex(&rest))
+                }
+                Err(e) => format!("err {}", code_value(&format!("{:?}", e))),
+            }
+        }
         _ => "driver-error unknown-case".into(),
     });
 }
